@@ -42,7 +42,9 @@ ASSUMPTIONS = [
     "a FakeWrapper's deploy() uses its inner connector once (inner.run) before completing, as container/queue-manager wrappers do; run/get_available_locations log a use and do not yield",
     "StubContext with config = {'path': '/cfg/streamflow.yml', 'deployments': {...all deployments of the topology...}} (what _inner_deploy reads to deploy a wrapped deployment implicitly); DetLoop replaces the selector loop; logging disabled",
     "topology names are concrete: A plain, B wraps A, C wraps B, E wraps A, D plain and unrelated; at most 3 of them per skeleton; every wrapper names its wrapped deployment explicitly (the implicit '__LOCAL__' wrapping with the real LocalConnector is not exercised); external=False",
-    "the first K scheduling choices are symbolic, each picks among the first 4 ready callbacks; afterwards the loop is FIFO",
+    "the first K scheduling choices are symbolic (K=5 quick, K=8 thorough; K=6 for the two thorough skeletons with two concurrent undeploy_all/close requests), each picks among the first 4 ready callbacks; afterwards the loop is FIFO",
+    "the lazy flags and the failing index are realised at the start of a path; afterwards the only symbolic values are the scheduling choices, which only DetLoop._pick looks at: the code between two choice points "
+    "computes on concrete values and runs with CrossHair's tracer switched off (NoTracing), the tracer is switched back on inside _pick (ResumedTracing); path counts are identical to the fully traced run, which was measured once",
     "at most one deployment fails, and it fails on every deploy attempt; undeploy never fails",
     "OUT of the claim (the statement does not fix the outcome): a deploy / first use racing an undeploy or undeploy_all that concerns the same deployment or a deployment of the same wraps chain; "
     "undeploy requests are only issued in a phase that starts after all deploy requests of related deployments have returned (an undeploy of an UNRELATED deployment may race deploys)",
@@ -444,7 +446,8 @@ def _rq(k, n):
 
 
 def _sk_name(skel):
-    return "__".join("_".join(k + (n or "") for k, n in ph) for ph in skel)
+    short = {"UA": "Uall", "CL": "Close"}
+    return "__".join("_".join(short.get(k, k) + (n or "") for k, n in ph) for ph in skel)
 
 
 def _spec(skel, K, lazy_mode="each", cond=600, group=None):
@@ -559,10 +562,10 @@ def skeletons(tier):
             (((DR("A"),), (DR("B"),), (DR("C"),), (U("A"),), (U("B"),), (U("C"),)), "same", G3),
             (((DR("C"),), (U("C"),)), "each", G3),
             (((DR("B"),), (DR("E"),), (U("B"),), (UA,)), "same", G4),
-            (((DR("A"),), (DR("B"),), (UA, UA)), "each", G4),
+            (((DR("A"),), (DR("B"),), (UA, UA)), "each", G4, 6),
             (((DR("A"),), (DR("B"),), (UA, U("A"))), "each", G4),
             (((DR("A"),), (DR("B"),), (UA, U("B"))), "each", G4),
-            (((DR("C"),), (UA, CL)), "same", G4),
+            (((DR("C"),), (UA, CL)), "same", G4, 6),
             (((DR("C"), DR("B")), (UA,)), "same", G4),
             (((DR("B"), DR("E")), (CL,)), "same", G4),
             (((DR("C"),), (UA,)), "each", G4),
@@ -575,6 +578,8 @@ def specs(tier: str):
     quick = tier == "quick"
     K = 5 if quick else 8
     out = []
-    for skel, mode, group in skeletons(tier):
-        out.append(_spec(skel, K, lazy_mode=mode, cond=600 if quick else 3000, group=group))
+    for sk in skeletons(tier):
+        skel, mode, group = sk[0], sk[1], sk[2]
+        k = min(K, sk[3]) if len(sk) > 3 else K  # two concurrent undeploy_all: up to 8 tasks, K capped
+        out.append(_spec(skel, k, lazy_mode=mode, cond=600 if quick else 3000, group=group))
     return out
